@@ -477,9 +477,80 @@ bytes {}",
     }
 }
 
+/// Several arguments read one after the other from one deserializer, each either as
+/// an untyped IDLValue or at its native type: reading one argument generically must
+/// not change how the next is metered.
+fn mixed_sequence_case(e: &mut Ent, ctx: &mut Ctx) -> Outcome {
+    use candid::types::value::IDLValue;
+    use candid::ser::IDLBuilder;
+    let reg = registry();
+    let n = e.range(2, 3);
+    let idx: Vec<usize> = (0..n).map(|_| e.below(reg.len())).collect();
+    let untyped: Vec<bool> = (0..n).map(|_| e.bool()).collect();
+    let mut b = IDLBuilder::new();
+    for i in &idx {
+        if reg[*i].gen_into_builder(e, 2, &mut b).is_err() {
+            return Outcome::Skip("encode-failed");
+        }
+    }
+    let bytes = match guard(|| b.serialize_to_vec()) {
+        Ok(Ok(b)) => b,
+        _ => return Outcome::Skip("encode-failed"),
+    };
+    let d = match decode_message(&bytes) {
+        Ok(d) => d,
+        Err(_) => return Outcome::Skip("not-a-valid-message"),
+    };
+    let table_len = d.header.table.len();
+    let wire_count: u64 = d.values.iter().map(count_values).sum();
+    let mw: u64 = d.values.iter().zip(&d.types.args).map(|(v, t)| model(&d.types.graph, *t, v, table_len)).sum();
+    let header_cost = 4 * d.header.value_start as u64;
+    // nothing is skipped: every argument is read at its own type or as a value
+    let upper = 16 * (header_cost + 2 * mw + 64) + 256;
+    ctx.class("native");
+    ctx.class("mixed-untyped-and-native-arguments");
+    let bytes2 = bytes.clone();
+    let idx2 = idx.clone();
+    let untyped2 = untyped.clone();
+    let dec = Decoder {
+        name: format!("IDLDeserialize reading ({})", idx.iter().zip(&untyped).map(|(i, u)| if *u { "IDLValue".to_string() } else { reg[*i].name().to_string() }).collect::<Vec<_>>().join(", ")),
+        run: Box::new(move |cfg| {
+            guard(|| -> Result<(Vec<RVal>, Cost), String> {
+                let mut de = IDLDeserialize::new_with_config(&bytes2, cfg).map_err(|e| format!("{e:?}"))?;
+                let mut out = vec![];
+                for (i, u) in idx2.iter().zip(&untyped2) {
+                    if *u {
+                        let v = de.get_value::<IDLValue>().map_err(|e| format!("{e:?}"))?;
+                        out.push(from_idl(&v).unwrap_or(RVal::Null));
+                    } else {
+                        out.push(reg[*i].decode_next(&mut de)?.1);
+                    }
+                }
+                de.done().map_err(|e| format!("{e:?}"))?;
+                let c = de.get_config().compute_cost(cfg);
+                Ok((out, (c.decoding_quota, c.skipping_quota)))
+            })
+        }),
+    };
+    let describe = || format!("message of ({}): {}", idx.iter().map(|i| reg[*i].name()).collect::<Vec<_>>().join(", "), hex::encode(&bytes));
+    match judge(&dec, e, wire_count, 0, upper, &describe, ctx) {
+        Ok(ok) => {
+            if ok {
+                ctx.nontrivial(digest_of(&bytes));
+            }
+            ctx.class(if ok { "decodes" } else { "rejected-unmetered" });
+            Outcome::Pass
+        }
+        Err(f) => Outcome::Fail(f),
+    }
+}
+
 fn native_case(e: &mut Ent, ctx: &mut Ctx) -> Outcome {
     if e.ratio(1, 3) {
         return native_surplus_case(e, ctx);
+    }
+    if e.ratio(1, 4) {
+        return mixed_sequence_case(e, ctx);
     }
     let reg = registry();
     let j = e.below(reg.len());
